@@ -29,6 +29,8 @@ def ty_src(t):
             return f"List[{ty_src(t[1])}]"
         if t[0] == "verdict":
             return f"Verdict[{ty_src(t[1])}, {ty_src(t[2])}]"
+        if t[0] == "result":
+            return f"Result[{ty_src(t[1])}, {ty_src(t[2])}]"
     if t == "unit":
         return "()"
     return t
@@ -112,8 +114,9 @@ def Const(name, ty, value):
     return Node("const", ty, name=name, value=value)
 
 
-def StrLit(text):
-    return Node("strlit", "String", text=text)
+def StrLit(text, spelling=None):
+    """text: the string the literal denotes; spelling: how it is written between the quotes (default: text itself)"""
+    return Node("strlit", "String", text=text, spelling=spelling)
 
 
 def FStr(parts):
@@ -246,7 +249,7 @@ def src(n, ind=1):
     if k == "const":
         return n.name
     if k == "strlit":
-        return '"' + n.text + '"'
+        return '"' + (n.spelling if getattr(n, "spelling", None) is not None else n.text) + '"'
     if k == "fstr":
         return 'f"' + "".join(p if isinstance(p, str) else "{" + src(p, ind) + "}" for p in n.parts) + '"'
     if k == "listlit":
@@ -425,6 +428,8 @@ class Ref:
             return [("Some", [ty[1]]), ("None", [])]
         if ty[0] == "verdict":
             return [("Accept", [ty[1]]), ("Reject", [ty[2]])]
+        if ty[0] == "result":
+            return [("Ok", [ty[1]]), ("Err", [ty[2]])]
         return self.p.enums[ty[1]]
 
     # -- entry
@@ -540,7 +545,7 @@ class Ref:
             return z3.BoolVal(True)
         if isinstance(ty, tuple) and ty[0] == "rec":
             return z3.And([self.equal(a[f], b[f], t) for f, t in self.p.records[ty[1]]] or [z3.BoolVal(True)])
-        if isinstance(ty, tuple) and ty[0] in ("enum", "opt", "verdict"):
+        if isinstance(ty, tuple) and ty[0] in ("enum", "opt", "verdict", "result"):
             vs = self.variants(ty)
             cases = []
             for i, (vn, fts) in enumerate(vs):
@@ -723,6 +728,16 @@ class Ref:
         if name.startswith("msub_"):
             self.trace.append((name, args))
             return args[0] - args[1]
+        if name == "opt_of":
+            # Rust: if x & 1 == 1 { Some(x ^ 0x5A5A) } else { None }
+            self.trace.append((name, args))
+            x = args[0]
+            return EnumVal(("opt", "u32"), z3.If(x & 1 == 1, z3.BitVecVal(0, 8), z3.BitVecVal(1, 8)), {0: [x ^ 0x5A5A], 1: []})
+        if name == "res_of":
+            # Rust: if x < 0x8000_0000 { Ok(x + 7) } else { Err(-(x as i32)) }   (wrapping)
+            self.trace.append((name, args))
+            x = args[0]
+            return EnumVal(("result", "u32", "i32"), z3.If(z3.ULT(x, 0x80000000), z3.BitVecVal(0, 8), z3.BitVecVal(1, 8)), {0: [x + 7], 1: [-x]})
         if name == "mk":
             self.trace.append((name, args))
             return {"val": args[0]}
